@@ -12,7 +12,7 @@ from penman.tree import Tree
 from pv.gen import graphs, models, trees
 from pv.gen.base import pick
 from pv.harness import Hyp
-from pv.props.common import fmt, short, tree_classes
+from pv.props.common import fmt, noise_calls, short, tree_classes
 from pv.ref import graphm, interp
 from pv.ref.role import build_model, build_table, roles_for
 
@@ -89,6 +89,7 @@ def check(case):
     g, lab = _build(case, m)
     if _wf(g, g.top, spec) is not None or len(set(g.triples)) != len(g.triples):
         return []
+    noise_calls(m, graph=g, roles=[t[1] for t in g.triples])
     top = g.top
     f = []
     h = g
